@@ -310,16 +310,6 @@ theorem adv_present_persist (s : State) (i : Nat) (h : Inv s.fs.get s.procs)
           obtain ⟨c, b⟩ := cb
           by_cases hc : (!b) = true <;> simp [hc, hk]
 
-theorem good_present_resolves {g : Name → Option Node} (hg : GoodFS g) {k : Cid}
-    (hk : g (.adv k) ≠ none) : resolveG g (.adv k) = some (k, true) := by
-  unfold resolveG
-  cases hn : g (.adv k) with
-  | none => exact absurd hn hk
-  | some n =>
-    cases n with
-    | file c b => have := hg.advFile k c b hn; simp [this.1, this.2]
-    | link t => simp [hg.advLink k t hn]
-
 /-- T: once an advertised name is present it resolves for ever, to the complete content it names —
 under every schedule of every pool (no `Remove` ever touches it, a `Rename` onto it carries the same
 content). -/
@@ -327,7 +317,7 @@ theorem resolves_stable (sched : List Nat) (s : State) (h : Inv s.fs.get s.procs
     (k : Cid) (hk : s.fs.get (.adv k) ≠ none) :
     (runSched sched s).fs.resolve (.adv k) = some (k, true) := by
   induction sched generalizing s with
-  | nil => rw [resolve_eq]; exact good_present_resolves h.good hk
+  | nil => rw [resolve_eq]; exact present_resolves h.good hk
   | cons i rest ih =>
     simp only [runSched]
     exact ih (s.step i) (inv_step s i h) (adv_present_persist s i h k hk)
@@ -435,7 +425,7 @@ theorem recovery_live_index (fs : FS) (hg : GoodFS fs.get) (t : Name) (htmp : t.
   unfold indexOnline
   refine SG_ifStat ?_ ?_
   · intro hres
-    exact SG_read (good_present_resolves' hg (present_of_resolved hres)) (SG_halt _)
+    exact SG_read (present_resolves hg (present_of_resolved hres)) (SG_halt _)
   · intro _
     refine SG_mkdir (SG_create hfresh (SG_mark _ ?_))
     refine SG_chunks n (c := gk) (by simp [updG]) (SG_finish (c := gk) (b := false) (by simp [updG]) (SG_mark _ ?_))
@@ -448,7 +438,7 @@ theorem recovery_live_index (fs : FS) (hg : GoodFS fs.get) (t : Name) (htmp : t.
     refine SG_advertise (good_of_fresh_changes hg eadv ekeep) (by rw [← hg2]; simp [updG]) htmp
       (nolink_of_fresh hg hfresh eadv) ?_
     intro g3 good3 pres _ _ _
-    exact SG_mark _ (SG_read (good_present_resolves' good3 pres) (SG_halt _))
+    exact SG_mark _ (SG_read (present_resolves good3 pres) (SG_halt _))
 
 /-- T `recovery_live_pkg`: from ANY good directory a package builder with four fresh temp names
 completes: on the hit path, on the hit path with a missing `.dat.tar` (regeneration), on the miss path
@@ -465,7 +455,7 @@ theorem recovery_live_pkg (fs : FS) (hg : GoodFS fs.get) (t1 t2 t3 t4 : Name) (k
   refine SG_ifStat ?_ (fun _ => hmiss)
   intro hres1
   have p1 := present_of_resolved hres1
-  refine SG_read (good_present_resolves' hg p1) (SG_ifStat ?_ (fun _ => hmiss))
+  refine SG_read (present_resolves hg p1) (SG_ifStat ?_ (fun _ => hmiss))
   intro hres2
   exact SG_pkgData n hg p1 (present_of_resolved hres2) f4 m4
 
